@@ -21,13 +21,13 @@ RULE = ("Cartesian position grids: direction algorithm in {ico, cube3D, randomS}
         "increments); 16 (160) seed-dependent configurations with N up to 200, 2-4 shells and the flag passed as True / np.True_ / 1 / a numpy comparison result / a 0-d array; "
         "order_points itself is monitored (cyclic order of every planar convex face it is given, also inside the grid runs) and called directly on 1500 (20000) hostile polygons per shard. The three getters (+ adjacency) are called on each object. Non-trivial = direction set surrounding the origin with >=2 "
         "shells; distinct by (algorithm, N, radial text)")
-ASSUMPTIONS = ["coplanar direction sets are outside the quantifier (skipped, counted)", "areas/volumes compared at rtol 1e-6, distances 1e-10",
+ASSUMPTIONS = ["coplanar direction sets are outside the quantifier (skipped, counted)",
+               "areas/volumes compared at rtol max(1e-11, 2e-15 (R_max/d_min)^2) - the measured agreement on the unchanged tree is ~1e-16 (R_max/d_min)^2 - plus 1e-11 of the largest face for areas; distances at 1e-10",
                "the qhull-based oracle numbers are cross-checked per grid against pure half-plane clipping on sampled faces",
                "open Euclidean cells (direction set does not surround the origin) are known finding F10"]
 EXHAUSTIVE = {"quick": False, "thorough": False}
 MIN_NONTRIVIAL = {"quick": 25, "thorough": 250}
 SHARD_TIMEOUT = {"quick": 900, "thorough": 7200}
-RTOL = 1e-6
 _CACHE = {}
 
 
@@ -46,6 +46,12 @@ def expected(self):
         cells = euclid.voronoi_cells(pts)
         cells["points"] = pts
         cells["n"] = len(D) * len(r)
+        # conditioning of the cell geometry: largest radius over the smallest distance between two neighbouring points. Face vertices are
+        # intersections of bisector planes; their rounding error (in qhull, in the repository and in this oracle alike) grows with its square
+        nn = [np.linalg.norm(pts[i] - pts[j]) for (i, j) in cells["face"] if i < j]
+        cond = float(np.abs(pts).max() / min(nn)) if nn else 1.0
+        cells["rtol"] = max(1e-11, 2e-15 * cond ** 2)
+        cells["face_scale"] = max(cells["face"].values()) if cells["face"] else 1.0
         cells["surrounds"] = origin_inside_hull(D)
         cells["coplanar"] = np.linalg.matrix_rank(D - D.mean(axis=0), tol=1e-9) < 3 and np.linalg.matrix_rank(D, tol=1e-9) < 3
         _CACHE[key] = cells
@@ -65,6 +71,20 @@ def _applicable(self, mon):
     return e
 
 
+def _clip_volume(e, i):
+    """cell volume without qhull: every bisector face of cell i by half-plane clipping, cones from the site"""
+    pts = e["points"]
+    vol = 0.0
+    for j in range(len(pts)):
+        if j == i:
+            continue
+        a = euclid.clip_face_area(pts, i, j)
+        if not np.isfinite(a):
+            return np.inf
+        vol += a * np.linalg.norm(pts[i] - pts[j]) / 6
+    return vol
+
+
 def _fail(mon, self, problems, e, open_only):
     REC.fail(mon, {"o": self.get_o_grid().get_name(with_dim=False), "t": self.t_grid.user_input, "problems": problems[:4],
                    "direction_set_surrounds_origin": e["surrounds"]},
@@ -80,6 +100,7 @@ def cartesian_volumes_are_voronoi_volumes(self, result):
         n = e["n"]
         v = np.asarray(result, dtype=float)
         problems, open_only = [], True
+        arbitrated, oracle_unreliable = 0, False
         if v.shape != (n,):
             problems.append(f"shape {v.shape} != {(n,)}")
             open_only = False
@@ -89,9 +110,23 @@ def cartesian_volumes_are_voronoi_volumes(self, result):
                 if e["open"][i]:
                     if not (v[i] > 0):
                         problems.append({"cell": i, "reported": v[i], "problem": "Euclidean cell is unbounded; no positive volume reported"})
-                elif not (v[i] > 0) or not np.isclose(v[i], want[i], rtol=RTOL):
-                    problems.append({"cell": i, "reported": v[i], "voronoi_volume": want[i]})
-                    open_only = False
+                elif not (v[i] > 0) or not np.isclose(v[i], want[i], rtol=e["rtol"]):
+                    # qhull is common-mode with the repository and can itself go wrong on nearly degenerate point sets (merged facets):
+                    # a disagreement is arbitrated by the qhull-free clipping oracle (first cells only: it costs O(M^2) per cell)
+                    if arbitrated < 3 and len(e["points"]) <= 1200 and v[i] > 0:
+                        arbitrated += 1
+                        vc = _clip_volume(e, i)
+                        if np.isfinite(vc) and np.isclose(v[i], vc, rtol=max(e["rtol"], 1e-9)):
+                            REC.notes["C06 qhull oracle disagreed, qhull-free clipping agrees with the repository (not a violation)"] += 1
+                            oracle_unreliable = True
+                            continue
+                        problems.append({"cell": i, "reported": v[i], "voronoi_volume": want[i], "clipping_volume": vc})
+                        open_only = False
+                    elif oracle_unreliable:
+                        REC.notes["C06 further cells of a grid whose qhull oracle is unreliable (not judged)"] += 1
+                    else:
+                        problems.append({"cell": i, "reported": v[i], "voronoi_volume": want[i]})
+                        open_only = False
         if problems:
             _fail(mon, self, problems, e, open_only)
         else:
@@ -133,10 +168,22 @@ def _pairs(self, result, what):
                         problems.append({"pair": [i, j], "reported": val, "euclidean_distance": want})
                         open_only = False
                 else:
-                    want = e["face"].get((i, j), 0.0)
-                    if not (val > 0) or not np.isfinite(val) or not np.isclose(val, want, rtol=RTOL, atol=1e-12):
-                        problems.append({"pair": [i, j], "reported": val, "voronoi_face_area": want, "a_cell_is_open": involves_open})
-                        if not involves_open:
+                    want = e["face"].get((i, j))
+                    if want is None:
+                        # the common face of two open cells is unbounded: any positive number (or an error) would do; a stored value
+                        # <= 0 is the known finding F10, nothing else about this pair can be judged
+                        if not (val > 0):
+                            problems.append({"pair": [i, j], "reported": val, "voronoi_face": "unbounded", "a_cell_is_open": True})
+                        else:
+                            REC.notes["C06 unbounded faces with a positive reported area (not judged)"] += 1
+                    elif not (val > 0) or not np.isfinite(val) or not np.isclose(val, want, rtol=e["rtol"], atol=1e-11 * e["face_scale"]):
+                        # a bounded face has one area, whether or not the two cells are bounded elsewhere.  Disagreements are arbitrated
+                        # by the qhull-free clipping oracle (qhull, common-mode with the repository, merges facets of nearly degenerate sets)
+                        ca = euclid.clip_face_area(pts, i, j) if val > 0 and np.isfinite(val) else None
+                        if ca is not None and np.isfinite(ca) and np.isclose(val, ca, rtol=max(e["rtol"], 1e-9), atol=1e-11 * e["face_scale"]):
+                            REC.notes["C06 qhull oracle disagreed, qhull-free clipping agrees with the repository (not a violation)"] += 1
+                        else:
+                            problems.append({"pair": [i, j], "reported": val, "voronoi_face_area": want, "clipping_area": ca, "a_cell_is_open": involves_open})
                             open_only = False
                 if D[i, j] != D[j, i] and not np.isclose(D[i, j], D[j, i], rtol=1e-9):
                     problems.append({"not_symmetric": [i, j]})
@@ -264,7 +311,7 @@ def oracle_selftest(e, rng):
     keys = [k for k in e["face"] if k[0] < k[1] and k[0] < e["n"] and not e["open"][k[0]] and not e["open"][k[1]]]
     for k in rng.sample(keys, min(4, len(keys))):
         a = euclid.clip_face_area(e["points"], *k)
-        if np.isclose(a, e["face"][k], rtol=1e-7, atol=1e-10):
+        if np.isclose(a, e["face"][k], rtol=max(1e-7, 10 * e["rtol"]), atol=1e-10 * e["face_scale"]):
             REC.ok("C06.oracle_selftest_clipping")
         else:
             REC.harness_problem("C06 oracle: qhull face area disagrees with half-plane clipping", {"pair": list(k), "qhull": e["face"][k], "clipping": a})
@@ -301,6 +348,8 @@ RADIAL = ["[0.2, 0.3]", "[0.15]", "[0.1, 0.2, 0.3]", "[0.1, 0.15, 0.4]", "linspa
 # thick shells, picometre and micrometre scales, many shells, pairs of nearly coincident shells
 HOSTILE = ["[0.1, 10]", "[0.001, 0.002, 0.004]", "[100, 150, 300]", "linspace(0.2, 0.4, 10)", "[0.2, 0.2001, 0.4, 0.4002]", "range(1, 3, 0.25)"]
 THIN = ["[1, 1.0005, 1.001]", "[0.5, 0.501, 0.502]", "[0.3, 0.3002]"]
+# thin shells far out: radial spacing 1e-5 of the radius (sums of squares cancel there)
+THIN_FAR = ["[100, 100.001]", "linspace(30, 30.001, 5)", "[5, 5.0001, 5.0003]"]
 
 
 def configs(tier):
@@ -317,6 +366,8 @@ def configs(tier):
                 out.append((alg, N, t))
         for k, (alg, N) in enumerate((("ico", 20), ("randomS", 42), ("cube3D", 8), ("ico", 80), ("randomS", 8), ("cube3D", 42))):
             out.append((alg, N, HOSTILE[k]))
+        for k, (alg, N) in enumerate((("ico", 42), ("randomS", 30), ("cube3D", 26))):
+            out.append((alg, N, THIN_FAR[k]))
     else:
         for alg in ("ico", "cube3D", "randomS"):
             for N in range(4, 61):
@@ -330,6 +381,9 @@ def configs(tier):
                     out.append((alg, N, t))
             for N in (8, 20, 42, 80, 100, 162):
                 for t in HOSTILE:
+                    out.append((alg, N, t))
+            for N in (12, 42, 60):
+                for t in THIN_FAR:
                     out.append((alg, N, t))
     return out
 
@@ -364,6 +418,14 @@ def run_shard(spec):
     for k, (alg, N, t) in enumerate(configs(spec["tier"])):
         if k % spec["nshards"] == spec["shard"]:
             drive(PositionGrid, alg, N, t, rng)
+            if t.startswith("[") and rng.random() < 0.4:
+                # near twin in the same process: same directions, last radius moved in its 8th digit (4e-7 nm), and the spherical-shell grid
+                # of the same name - nothing computed for one grid may be served to another
+                vals = t.strip("[]").split(",")
+                twin = "[" + ",".join(vals[:-1] + [" " + repr(round(float(vals[-1]) + 4e-7, 9))]) + "]"
+                PositionGrid(o_grid_name=f"{alg}_{N}", t_grid_name=t, position_grid_cartesian=False).get_all_position_volumes()
+                drive(PositionGrid, alg, N, twin, rng)
+                drive(PositionGrid, alg, N, t, rng)
     for k, (alg, N, t, flag) in enumerate(random_configs(spec["tier"], spec.get("seed", 0))):
         if k % spec["nshards"] == spec["shard"]:
             drive(PositionGrid, alg, N, t, rng, flag)
